@@ -222,6 +222,69 @@ fn check_one(t: &mut Tally, input: &[u8], from: Option<F>, to: F, d: usize, all_
 	}
 }
 
+/// The two ways the shipped binary gets at the bytes: a file operand (memory-mapped, the slice program)
+/// and standard input (a reader). Each must give exactly what the library gives for that supply mode -
+/// the library's modes are tied to each other by the main stage.
+fn cli_part() -> Tally {
+	use crate::proc::{self, Exit, Spawn, Stdin, WorkDir};
+	proc::assert_bins();
+	let w = WorkDir::new("c02-cli");
+	let mut inputs: Vec<(F, Vec<u8>)> = vec![];
+	for f in F::ALL {
+		inputs.push((f, vec![]));
+		for s in gen::seeds(f) {
+			if s.len() <= 70_000 {
+				inputs.push((f, s));
+			}
+		}
+		for l in gen::sized_streams(f, false).into_iter().step_by(3) {
+			inputs.push((f, l.bytes));
+		}
+	}
+	for l in gen::yaml_layouts(false).into_iter().step_by(17) {
+		inputs.push((F::Yaml, l.bytes));
+	}
+	let dir = w.path().to_path_buf();
+	let tallies = par_fold(&inputs, Tally::default, |t, idx, (f, input)| {
+		let name = format!("in{idx}");
+		std::fs::write(dir.join(&name), input).unwrap();
+		for from in [Some(*f), None] {
+			let mut base: Vec<String> = vec!["-tj".into()];
+			if let Some(f) = from {
+				base.push(format!("-f{}", f.letter()));
+			}
+			for by_file in [true, false] {
+				let mut args = base.clone();
+				if by_file {
+					args.push(name.clone());
+				}
+				let argv: Vec<&str> = args.iter().map(String::as_str).collect();
+				let mut sp = Spawn::new(&dir, &argv);
+				if !by_file {
+					sp.stdin = Stdin::Bytes(input.clone());
+				}
+				sp.release = idx % 2 == 0;
+				let o = proc::run(&sp);
+				let lib = if by_file { slice(input, from, F::Json) } else { run_reader(ChunkReader::new(input, 0), from, F::Json) };
+				t.evaluations += 1;
+				t.count(if by_file { "cli:file-operand" } else { "cli:standard-input" });
+				let good = match &o.exit {
+					Exit::Code(0) => lib.ok && o.stdout == lib.out,
+					Exit::Code(1) => !lib.ok && o.stderr.starts_with(b"xt error"),
+					_ => false,
+				};
+				if !good {
+					t.bad(if by_file { "cli-file-operand-differs-from-slice" } else { "cli-standard-input-differs-from-reader" },
+						json!({"kind": "cli-supply", "input_hex": if input.len() <= 4096 { crate::util::hex(input) } else { String::new() }, "input_len": input.len(), "from": fname(from), "by_file": by_file}),
+						format!("input={} ({} bytes) from={} given {}: {} | the library's {} program: {}", show(&input[..input.len().min(60)]), input.len(), fname(from), if by_file { "as a file operand" } else { "on standard input" }, o.brief(), if by_file { "slice" } else { "reader" }, lib.brief()));
+				}
+			}
+		}
+		let _ = std::fs::remove_file(dir.join(&name));
+	});
+	Tally::merge_all(tallies)
+}
+
 pub fn run(ctx: &Ctx) -> CheckOutput {
 	let thorough = ctx.thorough();
 	let d = if thorough { 2 } else { 1 };
@@ -257,9 +320,11 @@ pub fn run(ctx: &Ctx) -> CheckOutput {
 			assert!(a == b, "MACHINERY: nondeterministic outcome for {}", show(input));
 		}
 	});
-	let tally = Tally::merge_all(tallies);
+	let mut tally = Tally::merge_all(tallies);
+	tally.merge(cli_part());
 	let req = |k: &str| (k.to_string(), *tally.counters.get(k).unwrap_or(&0));
 	let required = vec![
+		req("cli:file-operand"), req("cli:standard-input"),
 		req("pair:json->json"), req("pair:yaml->json"), req("pair:msgpack->json"), req("pair:toml->json"),
 		req("pair:detect->json"), req("pair:json->toml"), req("pair:yaml->msgpack"), req("pair:detect->yaml"),
 		req("schedules:all-chunkings"), req("schedules:deviation-bounded"), req("slice-verdict:ok"), req("slice-verdict:err"),
@@ -268,7 +333,7 @@ pub fn run(ctx: &Ctx) -> CheckOutput {
 		level: "model_checking",
 		tally,
 		rule: format!(
-			"inputs: all token sequences (JSON k<={}, YAML/MessagePack/TOML k<={}) over the per-format alphabets, seed corpus and its single-edit neighbourhood, all byte strings of length <=2 (detected); for each input x source in {{explicit, detected}} x targets (JSON always; all four when the slice run succeeds): translate_slice once, then translate_reader under default policies {{all,1 bytes per read (thorough: all,1,2,3,7)}} and every schedule with <= {} deviations (all chunkings when the input is <= {} bytes); oracle: same verdict, identical bytes on success, prefix-comparable partial output on failure. A case is non-trivial when the slice run reached a translator (did not stop at 'unable to detect input format'); distinct by (input, source, target, verdict).",
+			"inputs: all token sequences (JSON k<={}, YAML/MessagePack/TOML k<={}) over the per-format alphabets, seed corpus and its single-edit neighbourhood, all byte strings of length <=2 (detected); for each input x source in {{explicit, detected}} x targets (JSON always; all four when the slice run succeeds): translate_slice once, then translate_reader under default policies {{all,1 bytes per read (thorough: all,1,2,3,7)}} and every schedule with <= {} deviations (all chunkings when the input is <= {} bytes); oracle: same verdict, identical bytes on success, prefix-comparable partial output on failure. A case is non-trivial when the slice run reached a translator (did not stop at 'unable to detect input format'); distinct by (input, source, target, verdict). CLI: the empty input, every seed and a third of the ladder streams given to the shipped binary as a file operand (memory-mapped) and on standard input, source named and detected: exit status and stdout equal the library's slice resp. reader program.",
 			if thorough { 5 } else { 4 }, if thorough { 4 } else { 3 }, d, all_len
 		),
 		exhaustive: true,
